@@ -74,7 +74,17 @@ def run(ctx):
     exits0 = {v for (v, kind, n) in cfg.exits() if kind in ('return', 'falloff')}
     elem_fields = ('_str', '_fileline', '_val', '_level', '_tid', '_when')
     sent = []
-    for (b, a, pol) in q.branches(op, lambda a: any(x.k == 'MemberExpr' and x.decl and x.decl.get('n') in elem_fields for x in a.walk())):
+
+    def pred_expr(a):
+        """the expression a stop test evaluates: the atom itself, or the single return expression of a Logger predicate helper it calls"""
+        sa_ = a.strip(casts=True)
+        if sa_.is_call and sa_.callee_qp and sa_.callee_qp.startswith(L) and sa_.callee.get('n') not in ('try_pop', 'stop_marker'):
+            for h in prog.fns(sa_.callee_qp):
+                rr = [x for x in h.all_nodes() if x.k == 'ReturnStmt' and x.children]
+                if len(rr) == 1:
+                    return rr[0].children[0]
+        return a
+    for (b, a, pol) in q.branches(op, lambda a: any(x.k == 'MemberExpr' and x.decl and x.decl.get('n') in elem_fields for x in pred_expr(a).walk())):
         for truth in (True, False):
             tg = q.atom_edge(cfg, (b, a, pol), truth)
             if any((cfg.reach_from(t, avoid=popv0 | procv0) | {t}) & exits0 for t in tg):
@@ -141,13 +151,23 @@ def run(ctx):
     sc = st.cfg
     rs = [c for c in st.calls() if c.callee is not None and c.callee.get('n') == 'request_stop']
     eq = st.calls_to(L + 'enqueue')
+    eq_site = eq
+    if not eq:
+        # the stop element may be queued by a small helper of the class
+        for c in st.calls():
+            if c.callee_qp and c.callee_qp.startswith(L):
+                for h in prog.fns(c.callee_qp):
+                    inner = h.calls_to(L + 'enqueue')
+                    if len(inner) == 1 and q.escape_path(h.cfg, [h.cfg.entry], {h.cfg.vertex_of(inner[0])}) is None:
+                        eq, eq_site = inner, [c]
+                        ctx.saw(h)
     jn = [c for c in st.calls() if c.callee is not None and c.callee.get('n') == 'join']
     ctx.need(len(rs) == 1 and len(eq) == 1 and len(jn) == 1, 'Logger::stop: request_stop/enqueue/join not all found')
-    ctx.check(sc.dominates(sc.vertex_of(rs[0]), sc.vertex_of(eq[0])) and sc.dominates(sc.vertex_of(eq[0]), sc.vertex_of(jn[0])) and
+    ctx.check(sc.dominates(sc.vertex_of(rs[0]), sc.vertex_of(eq_site[0])) and sc.dominates(sc.vertex_of(eq_site[0]), sc.vertex_of(jn[0])) and
               q.escape_path(sc, [sc.entry], {sc.vertex_of(jn[0])}) is None,
               'R28.3', L + 'stop#order', st.loc, 'stop(): request_stop ≺ sentinel enqueue ≺ join, join on every path')
     # the element stop() queues is the one the consumer's stop test recognises, and no logged line can look like it
-    sa = sent[0][1].strip(casts=True)
+    sa = pred_expr(sent[0][1]).strip(casts=True)
     flds = sorted({x.decl['n'] for x in sa.walk() if x.k == 'MemberExpr' and x.decl and x.decl.get('n') in elem_fields})
     marker_calls = sorted({x.callee_qp for x in sa.walk() if x.is_call and x.callee_qp and x.callee_qp.startswith(L) and x.callee_qp != L + 'operator()'})
     explicit = [x for x in eq[0].args if x.k != 'CXXDefaultArgExpr']
